@@ -80,7 +80,7 @@ def vc_is_none(x):
     return vc_is(x, None)
 
 
-@harness('X1', targets='kopf._core.actions.execution.execute_handler_once', props=['C11', 'C02'],
+@harness('X1', targets='kopf._core.actions.execution.execute_handler_once', props=['C11', 'C02', 'C09', 'C10', 'C20'],
          clauses=['limits_before_invocation', 'invoked_once_with_recorded_retry', 'classification', 'cancellation_propagates',
                   'never_raises_handler_errors'],
          canaries=['canary.always_final', 'canary.always_invoked'],
@@ -191,9 +191,9 @@ def X1(vc):
 
 
 # ----------------------------------------------------------------------------------------------- X6
-@harness('X6', targets='kopf._core.actions.invocation.invoke', props=['C09', 'C20', 'C11', 'C06', 'C10'],
+@harness('X6', targets='kopf._core.actions.invocation.invoke', props=['C09', 'C20', 'C11', 'C06', 'C10', 'C02'],
          clauses=['never_finishes_before_the_thread', 'cancellation_postponed_not_lost', 'result_or_error_passed_through',
-                  'async_awaited_directly', 'kwargs_merged'],
+                  'async_awaited_directly', 'kwargs_merged', 'context_carried_into_the_thread'],
          canaries=['canary.never_cancelled'],
          trusted=['loop.run_in_executor returns a future that completes when the thread exits',
                   'asyncio.shield(fut): completes with fut, or raises CancelledError in the waiter while fut keeps running',
@@ -209,9 +209,13 @@ def X6(vc):
     "at most one instance" for sync daemons, rests on this.)
     """
     from kopf._core.actions import invocation
+    import contextvars
     kind = vc.nondet(2, 'handler kind: sync / async')
-    kwargsrc = Opaque('kwargsrc', sync_kwargs={'s': 1}, async_kwargs={'a': 2})
-    given = {'param': 'P', 'retry': 0}
+    kwargsrc = [Opaque('kwargsrc', sync_kwargs={'s': 1}, async_kwargs={'a': 2}), None][vc.nondet(2, 'kwargsrc: a cause / None')]
+    given = [{'param': 'P', 'retry': 0}, {}, None][vc.nondet(3, 'kwargs: some / empty / None')]
+    expect = lambda extra: dict(given or {}) | (extra if kwargsrc is not None else {})
+    the_var = contextvars.ContextVar('set-by-the-caller')       # e.g. the sub-handling registry, the posting queue
+    the_var.set('as set before invoke()')
     fn_result = Opaque('result')
     fn_error = vc.fin('handler raises', [None, ValueError('boom'), asyncio.CancelledError()])
     st = Opaque('state', done=False, cancels=0, called_with=None)
@@ -226,17 +230,18 @@ def X6(vc):
             return fn_result
         ld = vc.load('kopf._core.actions.invocation', 'invoke')
         try:
-            out = vc.drive(ld.fn(afn, kwargsrc=kwargsrc, kwargs=dict(given)))
+            out = vc.drive(ld.fn(afn, kwargsrc=kwargsrc, kwargs=given))
             raised = None
         except (ValueError, asyncio.CancelledError) as e:
             out, raised = None, e
         vc.ensure('async_awaited_directly', (out is fn_result and raised is None) if resolve(fn_error) is None else raised is resolve(fn_error))
-        vc.ensure('kwargs_merged', st.called_with == {'param': 'P', 'retry': 0, 'a': 2})
+        vc.ensure('kwargs_merged', st.called_with == expect({'a': 2}))
         vc.canary('canary.never_cancelled', raised is None)
         return ('async', type(raised).__name__)
 
     def sfn(**kw):
         st.called_with = kw
+        st.seen_var = the_var.get('NOT VISIBLE in the handler thread')
         return fn_result
 
     st.fut_cancelled = False
@@ -249,7 +254,9 @@ def X6(vc):
             e = resolve(fn_error)
             if e is not None:
                 raise e
-            return st.real()
+            # the executor's thread starts with an EMPTY context: what the function sees of the caller's context
+            # variables is what invoke() carried over
+            return contextvars.Context().run(st.real)
         def cancel(self): return False
         def add_done_callback(self, cb): pass
         def __await__(self):
@@ -289,7 +296,7 @@ def X6(vc):
         'asyncio.get_running_loop': lambda: Loop(), 'asyncio.shield': shield, 'asyncio.wait': wait})
     out = raised = None
     try:
-        out = vc.drive(ld.fn(sfn, settings=settings, kwargsrc=kwargsrc, kwargs=dict(given)), on_suspend=complete_or_cancel)
+        out = vc.drive(ld.fn(sfn, settings=settings, kwargsrc=kwargsrc, kwargs=given), on_suspend=complete_or_cancel)
     except (ValueError, asyncio.CancelledError) as e:
         raised = e
     vc.ensure('never_finishes_before_the_thread', st.done is True)
@@ -300,5 +307,9 @@ def X6(vc):
     else:
         vc.ensure('result_or_error_passed_through', (out is fn_result and raised is None) if err is None else raised is err)
     vc.ensure('kwargs_merged', st.executor is settings.execution.executor)
+    if st.called_with is not None:
+        vc.ensure('kwargs_merged', st.called_with == expect({'s': 1}))
+        # sub-handler registries, the event-posting queue etc. are context variables: a sync handler in its thread sees them
+        vc.ensure('context_carried_into_the_thread', st.seen_var == 'as set before invoke()')
     vc.canary('canary.never_cancelled', st.cancels == 0)
     return ('sync', st.cancels, type(raised).__name__)
